@@ -349,6 +349,9 @@ theorem deriveTy_good (env : DEnv) (henv : DeriveEnvOk env) : ∀ fuel, GoodD (d
     cases t with
     | bool | i8 | i16 | i32 | i64 | u8 | u16 | u32 | f32 | f64 | string | char =>
       simp [deriveTy] at h; rw [← h.1]; rfl
+    | u64 | i128 | u128 =>
+      simp only [deriveTy, rustFixed] at h
+      split at h <;> (simp at h; rw [← h.1]; simp only [wfP]; decide)
     | boxed t' => simp only [deriveTy] at h; exact ih _ _ _ _ _ h
     | vec t' =>
       simp only [deriveTy] at h
